@@ -132,6 +132,9 @@ var solvers = []solverSpec{
 // NoSlicing disables the cone-of-influence pruning of queries.
 var NoSlicing = false
 
+// CrossCheckMs bounds the cross-checking solvers of the thorough tier once one solver has decided.
+var CrossCheckMs = 15000
+
 // ExtraSeeds adds z3 runs under other random seeds to the race (used for retries).
 var ExtraSeeds = false
 
@@ -203,7 +206,7 @@ func Discharge(o *Obligation, timeoutMs int, all bool) *Result {
 	defer cancel()
 	// stage 1: fast try with z3-new alone
 	quick := timeoutMs
-	if quick > 4000 && !all {
+	if quick > 4000 {
 		quick = 4000
 	}
 	t0 := time.Now()
@@ -247,7 +250,13 @@ func Discharge(o *Obligation, timeoutMs int, all bool) *Result {
 		wg.Add(1)
 		go func(sp solverSpec) {
 			defer wg.Done()
-			s, o2, _ := runSolver(ctx, sp, file, timeoutMs)
+			tmo := timeoutMs
+			if all && (st == "unsat" || st == "sat") && tmo > CrossCheckMs {
+				// the first solver has decided; the others only cross-check (a disagreement is
+				// reported, silence is not) and get a shorter limit
+				tmo = CrossCheckMs
+			}
+			s, o2, _ := runSolver(ctx, sp, file, tmo)
 			ch <- r{sp.Name, s, o2}
 		}(sp)
 	}
@@ -265,6 +274,9 @@ func Discharge(o *Obligation, timeoutMs int, all bool) *Result {
 			res.Status, res.Solver, res.Output = x.st, x.name, x.out
 			if !all {
 				cancel()
+			} else {
+				// thorough tier: give the remaining solvers a bounded time to contradict
+				time.AfterFunc(time.Duration(CrossCheckMs)*time.Millisecond, cancel)
 			}
 		} else if res.Status == "unknown" || res.Status == "error" {
 			if x.st == "timeout" || x.st == "unknown" {
